@@ -354,6 +354,15 @@ def judge(case, ctx):
                 continue
             if ctx:
                 ctx.mon("routing")
+            # routing monitor: the transform chosen must follow from (verb, URI prefix) / response alone
+            try:
+                chosen = dec.get_transform_for_http(wire)
+            except Exception as ex:  # noqa: BLE001
+                chosen = f"{type(ex).__name__}"
+            want_t = dec.transform_response if direction == "response" else dec.transform_get if what == "get" else dec.transform_submit
+            if chosen is not want_t:
+                names = {id(dec.transform_get): "get", id(dec.transform_submit): "post", id(dec.transform_response): "response"}
+                return ("routing", f"[{name}] message #{i} ({direction} of a {what}) routed to {names.get(id(chosen), chosen)!r} transform", what if direction == "request" else "response", i)
             if g != e:
                 return (name, f"[{name}] message #{i} ({direction} of a {what}): decoder yielded {core.short(g, 120)}, sent {core.short(e, 120)}", what if direction == "request" else "response", i)
     return None
